@@ -157,4 +157,67 @@ def Cfg.SitesComplete (c : Cfg) : Prop :=
 
 instance (c : Cfg) : Decidable c.SitesComplete := by unfold Cfg.SitesComplete; infer_instance
 
+
+/-! ### external calls -/
+
+mutual
+/-- no node is a call kind of the write analysis that the read analysis does not treat as a call (external calls) -/
+def extFree (cfg : Cfg) : Expr → Bool
+  | .node k _ subs => (!cfg.writeCallKinds.contains k || cfg.readCallKinds.contains k) && extFreeL cfg subs
+def extFreeL (cfg : Cfg) : List Expr → Bool
+  | [] => true
+  | e :: es => extFree cfg e && extFreeL cfg es
+end
+
+/-- all bodies free of external calls -/
+def bodiesExtFree (cfg : Cfg) (P : List FunDecl) : Bool := P.all (fun fd => extFreeL cfg (exprsOf fd.body))
+
+/-! ### property C13: what a value depends on -/
+
+/-- `Reads P e s`: evaluating `e` in program `P` may read symbol `s`: an identifier occurring anywhere in `e`, or --
+    through a call of `f` -- anywhere in `f`'s body (every statement form, local initialisers included, any chain of
+    calls), unless it is a local or a parameter of `f` (a parameter's value comes from the argument, which is a
+    sub-expression of the call). -/
+inductive Reads (P : List FunDecl) : Expr → Sym → Prop where
+  | ident (s : Sym) (subs : List Expr) : Reads P (.node .kIDENTIFIER s subs) s
+  | sub {k : Kind} {x s : Sym} {subs : List Expr} {e : Expr} : e ∈ subs → Reads P e s → Reads P (.node k x subs) s
+  | callBody {x f s : Sym} {fsubs args : List Expr} {fd : FunDecl} {b : Expr} :
+      fd ∈ P → fd.name = f → b ∈ exprsOf fd.body → Reads P b s → s ∉ fd.locals → s ∉ fd.params →
+      Reads P (.node .kFUN_CALL x (.node .kIDENTIFIER f fsubs :: args)) s
+
+/-- `DependsOn P D e s`: the value of `e` depends on `s` -- read directly or through function bodies, or through the
+    initialiser of a declared variable it reads, transitively. -/
+inductive DependsOn (P : List FunDecl) (D : List VarDecl) : Expr → Sym → Prop where
+  | reads {e : Expr} {s : Sym} : Reads P e s → DependsOn P D e s
+  | viaInit {e : Expr} {k s : Sym} {d : VarDecl} : Reads P e k → d ∈ D → d.sym = k → DependsOn P D d.init s → DependsOn P D e s
+
+/-- what the soundness proof of the *read* analysis needs of the generated tables -/
+def Cfg.ReadsComplete (c : Cfg) : Prop :=
+  c.callAddsDepends = true ∧ c.collectsDepends = true ∧ c.visit.Complete ∧ c.readCallKinds.contains .kFUN_CALL = true
+
+instance (c : Cfg) : Decidable c.ReadsComplete := by unfold Cfg.ReadsComplete; infer_instance
+
+mutual
+/-- some node of the expression is a call of one of the random-number builtins -/
+def containsRandom (cfg : Cfg) : Expr → Bool
+  | .node k _ subs => cfg.randomKinds.contains k || containsRandomL cfg subs
+def containsRandomL (cfg : Cfg) : List Expr → Bool
+  | [] => false
+  | e :: es => containsRandom cfg e || containsRandomL cfg es
+end
+
+/-- `BuilderDep D e s`: `s` occurs in `e`, or in the initialiser of a variable `e` depends on, transitively
+    ("used directly or indirectly in an array declaration") -/
+inductive BuilderDep (D : List VarDecl) : Expr → Sym → Prop where
+  | direct {e : Expr} {s : Sym} : Reads [] e s → BuilderDep D e s
+  | viaInit {e : Expr} {k s : Sym} {d : VarDecl} : BuilderDep D e k → d ∈ D → d.sym = k → Reads [] d.init s → BuilderDep D e s
+
+/-- Shapes at which the analysis of the current source lets a non-constant value through (computed from the
+    generated configuration; empty = none).  Each is confirmed against the real library by the check. -/
+def c13Exceptions (cfg : Cfg) : List String :=
+  (if cfg.ctcCollectsRandom && !cfg.readsPropagatesRandom then ["random:nested-operand"] else []) ++
+  (if cfg.ctcCollectsRandom && !cfg.dependsCollectsRandom then ["random:via-function-body"] else []) ++
+  (if !cfg.ctcCollectsRandom then ["random:anywhere"] else []) ++
+  (if !cfg.depsFollowFunctions then ["free-param:array-size-via-function"] else [])
+
 end UtapModel.Effect
